@@ -314,6 +314,22 @@ def check_case(ctx, case, full=True):
                 continue
             cmp_form(form, r, impl[:, j], j)
             ctx.sig(kind, subtype, form)
+    if kind == "point" and any(e is None for e in elements) and any(e is not None for e in elements):
+        # missing points whose null slots hold the coordinates of a real point of the array
+        real = [e for e in elements if e is not None]
+        ok, ha, tb = ctx.guarded(A.hostile_points, elements, subtype, None, real[int(rng.integers(len(real)))])
+        if not ok:
+            rec_raise("hostile-null-slots", ha, tb, "hostile-null-slots")
+        else:
+            allidx = np.arange(n)
+            for j in jsel:
+                for nm, inds_ in (("hostile-null-slots", None), ("hostile-null-slots-inds", allidx[::-1].copy())):
+                    ok, r, tb = ctx.guarded(ha.intersects_bounds, tuple(boxes_f[j]), inds_)
+                    if not ok:
+                        rec_raise(nm, r, tb, nm)
+                        continue
+                    cmp_form(nm, r, impl[:, j] if inds_ is None else impl[::-1, j], j)
+                    ctx.sig(kind, subtype, nm)
     ok, gs, tb = ctx.guarded(lambda: GeoSeries(arr, index=[f"r{i}" for i in range(n)]))
     if ok:
         for j in jsel2[:3]:
